@@ -215,13 +215,17 @@ ares_status_t ares_send_nolock(ares_channel_t *channel, ares_server_t *server,
     /* LCOV_EXCL_STOP */
   }
 
-  /* Perform the first query action. */
-
-  status = ares_send_query(server, query, &now);
-  if (status == ARES_SUCCESS && qid) {
+  /* Report the query id before sending.  ares_send_query() may complete this
+   * query -- even when it goes on to return success: probing a failed server
+   * can close a connection and thereby run callbacks that call ares_cancel()
+   * -- and qid may point into state that the completion callback releases
+   * (getaddrinfo's host_query), so it must not be written afterwards. */
+  if (qid) {
     *qid = id;
   }
-  return status;
+
+  /* Perform the first query action. */
+  return ares_send_query(server, query, &now);
 }
 
 ares_status_t ares_send_dnsrec(ares_channel_t          *channel,
